@@ -286,7 +286,7 @@ func genPathItem(r *rng.R, d *doc) item {
 	return item{kind: "path", path: p, style: st, m: m, desc: fmt.Sprintf("path{%s fill=%s stroke=%s}", pd, fs, ss)}
 }
 
-var words = []string{"lorem", "ipsum", "dolor", "sit", "amet", "fi", "Wave", "AVATAR", "(paren)", "back\\slash", "naïve", "über", "Œuvre", "10", "Tj", "ET", "čaj", "日本", "x\ty"}
+var words = []string{"lorem", "ipsum", "dolor", "sit", "amet", "fi", "Wave", "AVATAR", "(paren)", "back\\slash", "naïve", "über", "Œuvre", "10", "Tj", "ET", "čaj", "日本", "x\ty", "100%", "a%20b", "%d%s", "50%)", "▒%v", "line\nbreak"}
 
 func genString(r *rng.R) string {
 	n := 1 + r.Intn(5)
@@ -545,7 +545,7 @@ func genDoc(r *rng.R) *doc {
 				}
 				pg.items = append(pg.items, item{kind: "image", img: imgs[j], m: m, desc: fmt.Sprintf("image#%d{%s}", j, imgd[j])})
 			case k == 9:
-				uri := rng.Pick(r, []string{"https://example.com/", "https://example.com/a(b)c", "mailto:x@y.z", "http://x/\\y", "http://x/č"})
+				uri := rng.Pick(r, []string{"https://example.com/", "https://example.com/a(b)c", "mailto:x@y.z", "http://x/\\y", "http://x/č", "https://example.com/a%20b?q=%41", "http://x/100%"})
 				pg.items = append(pg.items, item{kind: "link", uri: uri, rect: canvas.Rect{X0: 1, Y0: 2, X1: float64(3 + r.Intn(20)), Y1: float64(4 + r.Intn(20))}, desc: fmt.Sprintf("link{%q}", uri)})
 				d.fams = append(d.fams, "link")
 			}
